@@ -4,7 +4,11 @@
 SPECIFICATION Spec
 CONSTANTS
   ValidateOnPrint = FALSE
+  EagerType = TRUE
+  MdVariant = "code"
+  AllocaRefresh = "fields"
   MaxCalls = 5
+  Groups = {"globals", "aliases", "ifuncs"}
   MaxPerGroup = 1
   MaxFuncs = 1
   MaxParams = 1
@@ -13,9 +17,17 @@ CONSTANTS
   NewNames = {"", "x"}
   SetNames = {"", "y"}
   InstRes = {"value", "void", "none"}
+  InstOps = {}
+  RefTargets = {}
+  RefGlobals = FALSE
+  FieldEdits = {}
   TermKinds = {"ret", "invoke"}
+  MaxMd = 0
+  MdExplicit = {}
+  MdAttach = FALSE
   MaxSrc = 0
   TrackQueries = FALSE
+  StickyQueries = FALSE
   Observers = {"PrintModule", "PrintFunc", "PrintBlock", "QueryType", "QueryIdent", "QueryOperands", "QuerySuccs"}
   EmitFile = "transitions.ndjson"
 VIEW View
